@@ -23,7 +23,7 @@ Next == /\ l <= Len(Traces[tid].steps)
                devs == {i \in DOMAIN Flags : Matches(ApplyAsImpl(cur, line.op, Flags[i]), line, got)}
                v    == IF Matches(exp, line, got) THEN
                             (IF line.res.k = "sliver" /\ line.op.op \in {"DictRT", "JsonRT"} /\ ~line.res.orig_same
-                             THEN "the sliver that was converted was altered by the conversion" ELSE "")
+                             THEN "the sliver (or dictionary) that was converted was altered by the conversion" ELSE "")
                        ELSE IF devs # {} THEN "deviation"
                        ELSE IF exp.out = "Unmodelled" THEN "harness: operation outside the modelled alphabet"
                        ELSE IF line.out # exp.out THEN "outcome: expected " \o exp.out \o " got " \o line.out
